@@ -225,6 +225,11 @@ pub enum Event {
     Arm { n: usize },
     #[serde(rename = "disarm")]
     Disarm,
+    /// the engine's cycle search was asked whether `target` requesting `callee` closes a cycle
+    /// (qbice::verif cycle hook): the computing queries reachable from `callee` with the callees
+    /// they had registered, and the answer
+    #[serde(rename = "cyc")]
+    Cyc { callee: usize, target: usize, edges: Vec<(usize, Vec<usize>)>, found: bool },
     /// a controlled schedule / watchdog did not complete
     #[serde(rename = "hang")]
     Hang { at: usize },
@@ -277,6 +282,8 @@ pub struct Ctx {
     pub exec_sleep_us: AtomicU64,
     /// node (0-based) whose executor panics on entry; -1 = none
     pub panic_node: AtomicI64,
+    /// record the engine's cycle searches as `cyc` events (single-threaded drivers only)
+    pub cyc_events: std::sync::atomic::AtomicBool,
 }
 
 impl Ctx {
@@ -289,6 +296,7 @@ impl Ctx {
             exec_yields: AtomicU64::new(0),
             exec_sleep_us: AtomicU64::new(0),
             panic_node: AtomicI64::new(-1),
+            cyc_events: std::sync::atomic::AtomicBool::new(false),
         })
     }
 }
